@@ -554,6 +554,10 @@ def compile_ast(
     return df, name_in_df, select, partition_by
 
 
+def _is_null_type(dtype) -> bool:
+    return isinstance(types.without_const(dtype), types.NullType)
+
+
 with PolarsImpl.impl_store.impl_manager as impl:
 
     @impl(ops.mean)
@@ -761,14 +765,14 @@ with PolarsImpl.impl_store.impl_manager as impl:
 
     @impl(ops.floor)
     def _floor(x, *, _sig):
-        if _sig[0].is_int():
+        if _sig[0].is_int() or _is_null_type(_sig[0]):
             # the result is a Float (the integer argument is implicitly converted)
             x = x.cast(pl.Float64)
         return x.floor()
 
     @impl(ops.ceil)
     def _ceil(x, *, _sig):
-        if _sig[0].is_int():
+        if _sig[0].is_int() or _is_null_type(_sig[0]):
             x = x.cast(pl.Float64)
         return x.ceil()
 
@@ -781,7 +785,12 @@ with PolarsImpl.impl_store.impl_manager as impl:
         return x.str.to_date()
 
     @impl(ops.floordiv)
-    def _floordiv(lhs, rhs):
+    def _floordiv(lhs, rhs, *, _sig):
+        # polars has no `abs` for the type of an untyped null literal
+        if _is_null_type(_sig[0]):
+            lhs = lhs.cast(pl.Int64)
+        if _is_null_type(_sig[1]):
+            rhs = rhs.cast(pl.Int64)
         result_sign = (lhs < 0) ^ (rhs < 0)
         return (abs(lhs) // abs(rhs)) * pl.when(result_sign).then(-1).otherwise(1)
         # TODO: test some alternatives if this is too slow
